@@ -285,7 +285,7 @@ def run(tier, seed, jobs):
     stats = {}
     samples = []
     plans = []
-    pmax = 4 if tier == 'quick' else 7
+    pmax = 4 if tier == 'quick' else 5
     for configs, policies, bound, nslices, n_er in plan(tier):
         kw = {'stages': ('gen', 'erase'), 'n_erasures': n_er}
         tot = explore.explore(configs, policies, bound, SPEC, {'powerset_max': pmax, 'javac_in_powerset': tier == 'thorough'}, jobs, seed, nslices, run_kw=kw)
